@@ -1,29 +1,43 @@
 import Enc.Model.Json.Buf
 import Enc.Spec.Json.Render
+import Enc.Lemmas.JsonBuf
 /-!
 # C15 — json.Append is oblivious to the destination's length and capacity
-Property theorems only.
+Property theorems only (proofs in Enc/Lemmas/JsonBuf.lean).
 -/
 namespace Enc.Props.C15
 open Enc Enc.Model.Json.Buf
 
 /-- Go's `append` on a well-formed slice: the contents become `data ++ xs` whatever the capacity and growth policy -/
 theorem append_data (grow : Nat → Nat → Nat) (s : Slice) (hs : s.Wf) (xs : Bytes) :
-    (s.append grow xs).data = s.data ++ xs ∧ (s.append grow xs).Wf := by
-  unfold Slice.append Slice.data Slice.Wf Slice.cap writeAt at *
-  simp only
-  split
-  · constructor
-    · simp only [List.take_append, List.length_take, List.length_append]
-      have h1 : min s.len s.arr.length = s.len := by omega
-      simp [h1]
-      apply List.take_of_length_le; simp; omega
-    · simp only [List.length_append, List.length_take, List.length_drop]; omega
-  · constructor
-    · simp only [List.take_append, List.length_take, List.length_append]
-      have h1 : min s.len s.arr.length = s.len := by omega
-      simp [h1]
-      apply List.take_of_length_le; simp; omega
-    · simp only [List.length_append, List.length_take, List.length_replicate]; omega
+    (s.append grow xs).data = s.data ++ xs ∧ (s.append grow xs).Wf :=
+  Lemmas.JsonBuf.append_data grow s hs xs
+
+/-- **MAIN.** For every destination slice (any prefix, any capacity), every growth policy of the Go runtime, both
+EscapeHTML settings and every value of the modelled universe: Append returns the destination's bytes followed by the
+buffer-free rendering of the value; when the value cannot be encoded it returns an error and the result still begins
+with the destination's bytes. (`Ranged`: integer leaves are int64 values, as they are in Go.) -/
+theorem append_eq_render (grow : Nat → Nat → Nat) (html : Bool) (s : Slice) (hs : s.Wf) (v : JV) (hv : v.Ranged) :
+    match Spec.Json.render html v with
+    | some x => append grow html s v = (s.data ++ x, false)
+    | none   => (append grow html s v).2 = true ∧ s.data <+: (append grow html s v).1 :=
+  Lemmas.JsonBuf.append_eq_render grow html s hs v hv
+
+/-- the property as stated: same error as `Append(nil, …)`, remainder equal to what `Append(nil, …)` returns, prefix kept
+even on error — for every value (no range hypothesis needed) -/
+theorem append_oblivious (grow : Nat → Nat → Nat) (html : Bool) (s : Slice) (hs : s.Wf) (v : JV) :
+    (append grow html s v).2 = (append grow html Slice.empty v).2 ∧
+    ((append grow html s v).2 = false → (append grow html s v).1 = s.data ++ (append grow html Slice.empty v).1) ∧
+    s.data <+: (append grow html s v).1 :=
+  Lemmas.JsonBuf.append_oblivious_all grow html s hs v
+
+/-- the runtime's amortised growth policy is unobservable -/
+theorem grow_irrelevant (g1 g2 : Nat → Nat → Nat) (html : Bool) (s : Slice) (hs : s.Wf) (v : JV) :
+    (append g1 html s v).2 = (append g2 html s v).2 ∧
+    ((append g1 html s v).2 = false → (append g1 html s v).1 = (append g2 html s v).1) :=
+  Lemmas.JsonBuf.grow_irrelevant_all g1 g2 html s hs v
+
+/-- the base64 length arithmetic of encodeBytes: `EncodedLen(len(v))` is the length actually written -/
+theorem b64_length (v : Bytes) : (b64 v).length = b64Len v.length := Lemmas.JsonBuf.b64_length v
 
 end Enc.Props.C15
